@@ -77,6 +77,7 @@ type opWorld struct {
 	sentHB       map[uint64][]hbSeen  // region -> heartbeats sent (epoch, leader), newest last
 	epochHist    map[uint64][]epochAt // region -> epochs PD served, with the step at which they were first observed
 	prevMon      int
+	mute         map[uint64]bool      // region -> its leader does not report to PD
 	deafUntil    map[uint64]time.Time // region -> its stores ignore PD's commands until then (busy / stuck apply)
 	cmdSent      map[string]int       // command content -> step at which PD first sent it
 	curMon       int
@@ -109,7 +110,7 @@ func newOpWorld(rc *corepkg, o opWorldOpts) *opWorld {
 		return nil
 	}
 	ow := &opWorld{World: w, streams: map[uint64]pdpb.PD_RegionHeartbeatClient{}, cancels: map[uint64]func(){}, storeUp: map[uint64]bool{},
-		foreign: map[uint64]int{}, foreignAny: map[uint64]int{}, foreignConfs: map[uint64][]foreignConf{}, foreignSeq: map[uint64][]uint64{}, pdSeq: map[uint64]uint64{}, pdSeqHist: map[uint64][]seqAt{}, ops: map[*operator.Operator]*opTrack{}, cmdDelay: o.cmdDelay, hbEvery: o.hbEvery, sentHB: map[uint64][]hbSeen{}, epochHist: map[uint64][]epochAt{}, cmdSent: map[string]int{}, deafUntil: map[uint64]time.Time{}}
+		foreign: map[uint64]int{}, foreignAny: map[uint64]int{}, foreignConfs: map[uint64][]foreignConf{}, foreignSeq: map[uint64][]uint64{}, pdSeq: map[uint64]uint64{}, pdSeqHist: map[uint64][]seqAt{}, ops: map[*operator.Operator]*opTrack{}, cmdDelay: o.cmdDelay, hbEvery: o.hbEvery, sentHB: map[uint64][]hbSeen{}, epochHist: map[uint64][]epochAt{}, cmdSent: map[string]int{}, deafUntil: map[uint64]time.Time{}, mute: map[uint64]bool{}}
 	ow.oc = w.Cl.SimOperatorController()
 	if ow.oc == nil {
 		rc.Anomaly("coordinator not running")
@@ -250,7 +251,7 @@ func (ow *opWorld) tryElect(r *simtikv.Region) {
 // sendRegionHB sends the heartbeat of r on its leader's stream.
 func (ow *opWorld) sendRegionHB(r *simtikv.Region) {
 	lp := r.LeaderPeer()
-	if lp == nil || !ow.storeUp[lp.StoreID] || r.Merged {
+	if lp == nil || !ow.storeUp[lp.StoreID] || r.Merged || ow.mute[r.ID] {
 		return
 	}
 	st := ow.streams[lp.StoreID]
